@@ -377,3 +377,205 @@ func TestVerifC03AcceptOnlyIf(t *testing.T) {
 }
 
 var _ = time.Now
+
+// --- the serialiser writes the right CRC whatever happened to the bundle (or to the serialiser) before ---
+
+type c03HistOp struct {
+	Op  string `json:"op"` // write, failwrite, parse, lifetime, rpt, dst, flag, blockflag, hop, age, crctype, pwrite
+	B   int    `json:"b"`
+	Arg uint64 `json:"arg"`
+}
+
+type c03HistCase struct {
+	Specs []vk.BundleSpec `json:"specs"`
+	Ops   []c03HistOp     `json:"ops"`
+}
+
+type c03FailWriter struct {
+	left int
+}
+
+func (w *c03FailWriter) Write(p []byte) (int, error) {
+	if len(p) > w.left {
+		n := w.left
+		w.left = 0
+		return n, fmt.Errorf("injected write fault")
+	}
+	w.left -= len(p)
+	return len(p), nil
+}
+
+func TestVerifC03SerialiserHistories(t *testing.T) {
+	vfRegisterCustom()
+	u := vk.Unit{Property: "C03", Name: "c03.serialiser-histories", Quick: 1500, Thorough: 60000,
+		Rule: "histories over 1..3 bundle objects with a CRC on every block: serialise; serialise into a writer that fails after n bytes; replace the object by the parsed copy of its last encoding (stored CRC fields are then populated); change a field in place (lifetime, report-to, destination, a status-request flag, a block's flags, hop count, bundle age, CRC type 16<->32 through SetCRCType); serialise two objects from two goroutines at once. After EVERY successful serialisation the encoding is decoded independently, must show the changed field values, and every CRC must equal the independent bit-wise CRC. Non-trivial = a serialisation after an in-place change of a parsed/serialised object or after an interrupted write; distinct by case hash"}
+	gen := func(t *rapid.T) c03HistCase {
+		var cs c03HistCase
+		n := rapid.IntRange(1, 3).Draw(t, "n")
+		for i := 0; i < n; i++ {
+			o := c03Opts
+			o.SmallPayload = true
+			cs.Specs = append(cs.Specs, vk.GenBundle(o).Draw(t, "bundle"))
+		}
+		ops := []string{"write", "write", "failwrite", "failwrite", "parse", "lifetime", "rpt", "dst", "flag", "blockflag", "hop", "age", "crctype", "pwrite"}
+		cs.Ops = rapid.SliceOfN(rapid.Custom(func(t *rapid.T) c03HistOp {
+			return c03HistOp{Op: rapid.SampledFrom(ops).Draw(t, "op"), B: rapid.IntRange(0, n-1).Draw(t, "b"), Arg: rapid.Uint64Range(0, 1<<20).Draw(t, "arg")}
+		}), 2, 14).Draw(t, "ops")
+		return cs
+	}
+	vk.Check(t, u, gen, func(c *vk.Ctx, cs c03HistCase) {
+		now := vfNowDtn()
+		bs := make([]Bundle, len(cs.Specs))
+		last := make([][]byte, len(cs.Specs))
+		dirty := make([]bool, len(cs.Specs)) // changed in place after having been serialised or parsed
+		touched := make([]bool, len(cs.Specs))
+		for i := range cs.Specs {
+			bs[i] = vfBundle(&cs.Specs[i], now)
+		}
+		interrupted := false
+		var trace []string
+		judge := func(i int, raw []byte, how string) {
+			w, err := vk.ReadBundle(raw)
+			if err != nil {
+				c.Failf("c03.write-undecodable", "%s: independent reader: %v\nhistory: %v", how, err, trace)
+			}
+			if w.Primary.CRCItem == nil {
+				c.Failf("c03.write-missing-crc", "%s: primary block carries no CRC\nhistory: %v", how, trace)
+			}
+			if p := w.CheckCRCs(); len(p) > 0 {
+				c.Failf("c03.write-wrong-crc", "%s: serialiser wrote a CRC that the independent implementation does not reproduce: %s\nhistory: %v", how, p[0], trace)
+			}
+			b := &bs[i]
+			if w.Primary.Lifetime != b.PrimaryBlock.Lifetime || w.Primary.Flags != uint64(b.PrimaryBlock.BundleControlFlags) ||
+				w.Primary.Rpt.String() != b.PrimaryBlock.ReportTo.String() || w.Primary.Dst.String() != b.PrimaryBlock.Destination.String() {
+				c.Failf("c03.write-stale-bytes", "%s: the encoding does not show the object's current primary block fields\nhistory: %v", how, trace)
+			}
+			if dirty[i] || interrupted {
+				c.NonTrivial()
+			}
+			if dirty[i] {
+				c.Class("serialised after an in-place change")
+			}
+			if interrupted {
+				c.Class("serialised after an interrupted write")
+			}
+			dirty[i] = false
+			last[i] = raw
+			touched[i] = true
+		}
+		for k, op := range cs.Ops {
+			i := op.B % len(bs)
+			b := &bs[i]
+			trace = append(trace, fmt.Sprintf("#%d %s(%d,%d)", k, op.Op, i, op.Arg))
+			switch op.Op {
+			case "write":
+				raw, err := vfWrite(b)
+				if err != nil {
+					c.Failf("c03.write-error", "serialising failed: %v\nhistory: %v", err, trace)
+				}
+				judge(i, raw, "write")
+				interrupted = false
+			case "failwrite":
+				full, err := vfWrite(b)
+				if err != nil {
+					c.Failf("c03.write-error", "serialising failed: %v\nhistory: %v", err, trace)
+				}
+				judge(i, full, "write")
+				fw := &c03FailWriter{left: int(op.Arg % uint64(len(full)))}
+				if err := b.WriteBundle(fw); err == nil {
+					c.Failf("c03.harness", "write into a failing writer succeeded")
+				}
+				interrupted = true
+			case "pwrite":
+				j := (i + 1) % len(bs)
+				var r1, r2 []byte
+				var e1, e2 error
+				done := make(chan struct{})
+				go func() { r2, e2 = vfWrite(&bs[j]); close(done) }()
+				if j != i {
+					r1, e1 = vfWrite(b)
+				}
+				<-done
+				if e1 != nil || e2 != nil {
+					c.Failf("c03.write-error", "concurrent serialising failed: %v %v\nhistory: %v", e1, e2, trace)
+				}
+				if j != i {
+					judge(i, r1, "concurrent write")
+				}
+				judge(j, r2, "concurrent write")
+				interrupted = false
+			case "parse":
+				if last[i] == nil {
+					continue
+				}
+				p, err := vfParse(last[i])
+				if err != nil {
+					continue // e.g. expired meanwhile; not this property
+				}
+				bs[i] = p
+				touched[i] = true
+			case "lifetime":
+				b.PrimaryBlock.Lifetime += 1000 + op.Arg
+				dirty[i] = touched[i]
+			case "rpt":
+				if b.PrimaryBlock.BundleControlFlags.Has(AdministrativeRecordPayload) {
+					continue
+				}
+				b.PrimaryBlock.ReportTo = MustNewEndpointID(fmt.Sprintf("dtn://rpt%d/x", op.Arg%1000))
+				dirty[i] = touched[i]
+			case "dst":
+				b.PrimaryBlock.Destination = MustNewEndpointID(fmt.Sprintf("dtn://dst%d/y", op.Arg%1000))
+				dirty[i] = touched[i]
+			case "flag":
+				if b.PrimaryBlock.BundleControlFlags.Has(AdministrativeRecordPayload) || b.PrimaryBlock.SourceNode == DtnNone() {
+					continue
+				}
+				b.PrimaryBlock.BundleControlFlags ^= StatusRequestDelivery
+				dirty[i] = touched[i]
+			case "blockflag":
+				cb := &b.CanonicalBlocks[int(op.Arg)%len(b.CanonicalBlocks)]
+				if cb.TypeCode() == ExtBlockTypePayloadBlock {
+					continue
+				}
+				cb.BlockControlFlags ^= ReplicateBlock
+				dirty[i] = touched[i]
+			case "hop":
+				if cb, err := b.ExtensionBlock(ExtBlockTypeHopCountBlock); err == nil {
+					hc := cb.Value.(*HopCountBlock)
+					if hc.Count < hc.Limit {
+						hc.Count++
+						dirty[i] = touched[i]
+					}
+				}
+			case "age":
+				if cb, err := b.ExtensionBlock(ExtBlockTypeBundleAgeBlock); err == nil {
+					ab := cb.Value.(*BundleAgeBlock)
+					*ab = BundleAgeBlock(uint64(*ab) + 1 + op.Arg%100000)
+					dirty[i] = touched[i]
+				}
+			case "crctype":
+				nt := CRC16
+				if b.PrimaryBlock.CRCType == CRC16 {
+					nt = CRC32
+				}
+				b.SetCRCType(nt)
+				dirty[i] = touched[i]
+			}
+			if err := b.CheckValid(); err != nil && op.Op != "parse" {
+				// the change made the bundle invalid (e.g. lifetime overflow): not a case for this property
+				c.Note("history left the valid domain: " + err.Error())
+				return
+			}
+		}
+		// final serialisation of everything
+		for i := range bs {
+			trace = append(trace, fmt.Sprintf("final write(%d)", i))
+			raw, err := vfWrite(&bs[i])
+			if err != nil {
+				c.Failf("c03.write-error", "serialising failed: %v\nhistory: %v", err, trace)
+			}
+			judge(i, raw, "final write")
+			interrupted = false
+		}
+	})
+}
